@@ -3,3 +3,18 @@
 pub type Uuid = u128;
 #[verifier::external_body]
 pub fn uuid_new_v4() -> (r: Uuid) { unimplemented!() }
+
+// TRUSTED COMPOSITION (used only by the two allocators' `maintain`): `(entities, storage).join().map(|(e, m)| (m.id(), e)).collect()`
+// builds the table { id(m) -> e : e is a joined (live) entity whose marker component is m }. The join itself is C06's subject (unit
+// join); here the world side is opaque: `marked(ents, st)` names that table. N10 replaces exactly this expression; any other body is
+// outside the stub and leaves `maintain` undecided.
+#[verifier::external_body]
+pub struct EntitiesRes { x: u8 }
+#[verifier::external_body]
+#[verifier::reject_recursive_types(M)]
+pub struct ReadStorage<M> { x: core::marker::PhantomData<M> }
+pub uninterp spec fn marked<M, K>(ents: &EntitiesRes, st: &ReadStorage<M>) -> Map<K, Entity>;
+#[verifier::external_body]
+pub fn collect_marker_join<M, K>(ents: &EntitiesRes, st: &ReadStorage<M>) -> (r: std::collections::HashMap<K, Entity>)
+    ensures r@ == marked::<M, K>(ents, st),
+{ unimplemented!() }
